@@ -114,6 +114,7 @@ class RecTask:
         self.remote = bool(msg.is_remote_frame)
         self.period = period
         self.live = True
+        self.msg_obj = msg            # a producer restarts with the same message object
 
     def stop(self):
         self.live = False
@@ -139,6 +140,10 @@ class FakeBus:
         self.sent.append((msg.arbitration_id, bytes(msg.data)))
 
     def send_periodic(self, msg, period, *args, **kwargs):
+        # "at every moment at most one task per producer": a producer that starts its replacement while its
+        # earlier task (same message object) is still live has two tasks on the bus at this moment
+        if any(t.live and t.msg_obj is msg for t in self.tasks):
+            self.overlaps = getattr(self, "overlaps", 0) + 1
         t = (ModTask if self.modify else RecTask)(len(self.tasks), msg, period)
         self.tasks.append(t)
         return t
@@ -403,7 +408,9 @@ def run_impl(op):
             ok = False
         except Exception:
             ok = False
-        outs.append(f"{'ok' if ok else 'err'};{show_tasks(env)};{show_api(env)}")
+        ovl = getattr(env.bus, "overlaps", 0)
+        env.bus.overlaps = 0
+        outs.append(f"{'ok' if ok else 'err'}{'!overlap' if ovl else ''};{show_tasks(env)};{show_api(env)}")
     return "|".join(outs) if outs else "-"
 
 
@@ -466,6 +473,12 @@ def pname(p):
 def oracle(op, out):
     if out == "bad-op" or out.startswith("HARNESS-RAISED"):
         return f"harness/none: runner could not execute the history: {out}"
+    if "!overlap" in out:
+        j = [i for i, part in enumerate(out.split("|")) if part.split(";")[0].endswith("!overlap")][0]
+        tok = parse(op)[1][j]
+        return (f"overlap/{tok.split(':')[0]}: during call {j + 1} `{tok}` a producer started its replacement task while "
+                f"its earlier task was still transmitting (two tasks of one producer at that moment)")
+    out = out.replace("!overlap", "")
     cfg, ops = parse(op)
     steps = parse_out(out)
     if len(steps) != len(ops):
